@@ -79,6 +79,15 @@ class Ctx(object):
             return {'k': 'prim', 'name': 'void'}
         return {'k': 'prim', 'name': self.rng.choice(ARITH_T)}
 
+    def scalar_type(self):
+        """arithmetic, enum, or a typedef resolving to arithmetic/pointer"""
+        for _ in range(8):
+            t = self.base_type(allow_agg=False)
+            r = self.resolve(t)
+            if r['k'] in ('prim', 'enum') or (r['k'] == 'ptr' and r['to']['k'] != 'fnptr2'):
+                return t
+        return {'k': 'prim', 'name': 'int'}
+
     def any_type(self, depth=0):
         r = self.rng.random()
         if depth > 2 or r < 0.5:
@@ -97,11 +106,11 @@ class Ctx(object):
     def func_type(self, depth=0):
         args = []
         for _ in range(self.rng.randrange(0, 4)):
-            a = self.base_type(allow_agg=False)
+            a = self.scalar_type()
             if self.rng.random() < 0.3:
                 a = {'k': 'ptr', 'to': a}
             args.append(a)
-        res = self.base_type(allow_agg=False)
+        res = self.scalar_type()
         if self.rng.random() < 0.2:
             res = {'k': 'prim', 'name': 'void'}
         elif self.rng.random() < 0.2:
@@ -134,7 +143,7 @@ class Ctx(object):
         for i in range(rng.choice([1, 2, 3, 5])):
             en = ('%sE%d_%d' % (self.p, self.n, i)).upper()
             if rng.random() < 0.5:
-                cur = rng.choice([0, 1, 5, -1, -3, 100, 255, 65536, 2 ** 31 - 1, cur + 1,
+                cur = rng.choice([0, 1, 5, -1, -3, 100, 255, 65536, 2 ** 31 - 9, cur + 1,
                                   rng.randint(-1000, 1000)])
                 names.append('%s = %d' % (en, cur))
             else:
